@@ -11,7 +11,6 @@ import (
 	"strings"
 	"time"
 
-	"github.com/knz/shakespeare/pkg/cmd"
 	"github.com/knz/shakespeare/verifharness/vh"
 )
 
@@ -254,6 +253,40 @@ func runC09(rng *rand.Rand, scale int, out string, shards int, seed int64, corpu
 		do(g)
 		graphs = append(graphs, g)
 	}
+	// 5b. cast multiplicities (bounded above), written out and through parameters
+	mults := []string{"-9223372036854775808", "-2147483649", "-4", "-1", "0", "1", "2", "7", "40", "+2", "007", "-0", "1.5", "two", "", "~undefinedn~", "0x10", "1e2", "99999999999999999999", "-"}
+	for i := 0; i < 140*scale; i++ {
+		m := mults[rng.Intn(len(mults))]
+		in := &input{Files: map[string]string{}, Main: "m.cfg", IP: []string{""}, Stream: "multiplicity", Fault: "play " + m}
+		var sb strings.Builder
+		written := m
+		switch rng.Intn(4) {
+		case 0:
+			if m != "" {
+				sb.WriteString("parameter n defaults to " + m + "\n")
+				written = "~n~"
+			}
+		case 1:
+			in.Defines = []string{"n=" + m}
+			written = "~n~"
+		}
+		sb.WriteString("role doc\n  :cure true\nend\ncast\n")
+		if rng.Intn(2) == 0 {
+			sb.WriteString("  alice plays doc\n")
+		}
+		plural := []string{"", "s"}[rng.Intn(2)]
+		env := []string{"", " with A=1"}[rng.Intn(2)]
+		sb.WriteString("  dan* play " + written + " doc" + plural + env + "\n")
+		if rng.Intn(2) == 0 {
+			sb.WriteString("  eve* play 2 docs\n")
+		}
+		sb.WriteString("end\n")
+		if rng.Intn(2) == 0 {
+			sb.WriteString("script\n  scene a entails for every doc: cure\n  storyline a\nend\n")
+		}
+		in.Files["m.cfg"] = sb.String()
+		do(in)
+	}
 	sum.WallParse = time.Since(t0).Seconds()
 
 	// 6. the reader alone
@@ -262,20 +295,18 @@ func runC09(rng *rand.Rand, scale int, out string, shards int, seed int64, corpu
 		if hung {
 			return
 		}
-		var r cmd.VerifC09ReadResult
-		tick()
-		for attempt := 0; ; attempt++ {
-			if !guarded(func() { r = cmd.VerifC09ReadAll(in.Files, in.Dirs, in.Main, in.Defines, in.IP, 200000) }) {
+		rs, st := call(&request{Kind: "read", In: in})
+		if !st.OK {
+			if st.Timeout {
 				reads = append(reads, readRec{In: in, End: "runaway", Err: obsT{Kind: "timedout"}})
 				sum.Outcomes["read-timeout"]++
-				return
+			} else if st.Fatal != "" {
+				reads = append(reads, readRec{In: in, End: "panic", Err: obsT{Kind: "fatal", Panic: st.Fatal}})
+				sum.Outcomes["read-fatal"]++
 			}
-			if (r.End == "setup" || strings.Contains(r.Err.ErrShort, "too many open files")) && attempt < 3 {
-				releaseDescriptors()
-				continue
-			}
-			break
+			return
 		}
+		r := *rs.Read
 		if r.End == "setup" {
 			sum.Outcomes["read-setup-failed"]++
 			return
@@ -340,12 +371,18 @@ func runC09(rng *rand.Rand, scale int, out string, shards int, seed int64, corpu
 			line = "edit" + c
 		}
 		line = strings.TrimSpace(line)
-		var e, p string
-		if !guarded(func() { e, p = cmd.VerifC09ScriptLine(line) }) {
-			edits = append(edits, editRec{Cmd: c, Line: line, Obs: 2, Pan: "did not terminate"})
-			sum.Outcomes["edit-timeout"]++
-			break
+		rs, st := call(&request{Kind: "edit", Line: line})
+		if !st.OK {
+			if st.Timeout {
+				edits = append(edits, editRec{Cmd: c, Line: line, Obs: 2, Pan: "did not terminate"})
+				sum.Outcomes["edit-timeout"]++
+			} else if st.Fatal != "" {
+				edits = append(edits, editRec{Cmd: c, Line: line, Obs: 2, Pan: "fatal: " + st.Fatal})
+				sum.Outcomes["edit-fatal"]++
+			}
+			continue
 		}
+		e, p := rs.E, rs.P
 		rec := editRec{Cmd: c, Line: line, Err: e, Pan: p}
 		switch {
 		case p != "":
